@@ -28,7 +28,14 @@ pub enum Op8 {
     GammaTab,
     W(WOp1),
     /// copy n bits; to=true: reader.copy_to(writer), false: writer.copy_from(reader)
-    Copy { to: bool, n: u64 },
+    Copy {
+        to: bool,
+        n: u64,
+        /// 0: the method of the concrete type; 1: the trait's default method, through a
+        /// pass-through wrapper around the reader (copy_to) / the writer (copy_from)
+        #[serde(default)]
+        via: u8,
+    },
 }
 
 #[derive(Clone, Debug, Serialize, Deserialize)]
@@ -126,7 +133,7 @@ impl Family for C08 {
                     }
                 }
             };
-            Op8::Copy { to: rng.chance(1, 2), n }
+            Op8::Copy { to: rng.chance(1, 2), n, via: rng.chance(1, 4) as u8 }
         };
         // pre-history; one run in six starts from the maximal buffer fill 2W-1 (one bit
         // read, then a full-width peek), optionally reduced by a few bits
@@ -140,6 +147,7 @@ impl Family for C08 {
             ops.push(Op8::Copy {
                 to: rng.chance(3, 4),
                 n: *rng.pick(&[f - 2, f - 1, f, f + 1, f + rwb as u64, 1, 0]),
+                via: rng.chance(1, 5) as u8,
             });
         }
         for _ in 0..rng.usize_range(0, 4) {
@@ -296,13 +304,22 @@ impl Family for C08 {
                         }
                     }
                 }
-                Op8::Copy { to, n } => {
+                Op8::Copy { to, n, via } => {
                     let n = if sim.zero_ext {
                         *n
                     } else {
                         (*n).min((sim.data_bits - sim.pos.min(sim.data_bits)) as u64)
                     };
-                    let mut t = base_tags(&sim, if *to { "copy_to" } else { "copy_from" });
+                    let mut t = base_tags(
+                        &sim,
+                        match (*to, *via) {
+                            (true, 0) => "copy_to",
+                            (false, 0) => "copy_from",
+                            (true, _) => "default_copy_to",
+                            (false, _) => "default_copy_from",
+                        },
+                    );
+                    ctx.probe_if(*via != 0, "c08.trait_default_copy");
                     let fill = sim.fill();
                     let space = wwb - wm.len() % wwb;
                     if let Some(f) = fill {
@@ -321,15 +338,16 @@ impl Family for C08 {
                         e as u64,
                         s.rkind as u64,
                         s.wword as u64,
-                        *to as u64,
+                        *to as u64 + 2 * *via as u64,
                         fill.map(|f| f as u64).unwrap_or(999),
                         space as u64,
                         n.min(300),
                     ]);
-                    let r = if *to {
-                        guard(|| sim.r.copy_to(&mut w, n))
-                    } else {
-                        guard(|| w.copy_from(&mut sim.r, n))
+                    let r = match (*to, *via) {
+                        (true, 0) => guard(|| sim.r.copy_to(&mut w, n)),
+                        (false, 0) => guard(|| w.copy_from(&mut sim.r, n)),
+                        (true, _) => guard(|| sim.r.copy_to_default(&mut w, n)),
+                        (false, _) => guard(|| w.copy_from_default(&mut sim.r, n)),
                     };
                     ctx.tr(|| format!("#{} copy(to={}, n={}) src@{} fill {:?} dst bits {} -> {:?}", i, to, n, sim.pos, fill, wm.len(), r));
                     match r {
@@ -397,7 +415,13 @@ impl Family for C08 {
         }
         for (i, op) in s.ops.iter().enumerate() {
             let alts: Vec<Op8> = match op {
-                Op8::Copy { to, n } => shrink_u64(*n).into_iter().map(|m| Op8::Copy { to: *to, n: m }).collect(),
+                Op8::Copy { to, n, via } => {
+                    let mut v: Vec<Op8> = shrink_u64(*n).into_iter().map(|m| Op8::Copy { to: *to, n: m, via: *via }).collect();
+                    if *via != 0 {
+                        v.push(Op8::Copy { to: *to, n: *n, via: 0 });
+                    }
+                    v
+                }
                 Op8::R(ROp::Bits(n)) => shrink_usize(*n).into_iter().map(|m| Op8::R(ROp::Bits(m))).collect(),
                 Op8::R(ROp::Skip(n)) => shrink_usize(*n).into_iter().map(|m| Op8::R(ROp::Skip(m))).collect(),
                 Op8::R(ROp::Peek(n)) => shrink_usize(*n).into_iter().filter(|m| *m > 0).map(|m| Op8::R(ROp::Peek(m))).collect(),
@@ -431,7 +455,7 @@ impl Family for C08 {
     }
 
     fn rule() -> &'static str {
-        "one case = (endianness, source reader {buffered u8..u64, unbuffered} over a strict or zero-extended memory image of one of 5 patterns, destination writer word u8..u128 over a recording sink, history: 0-4 source ops incl. peeks and gamma-table reads, 0-3 destination writes, usually a peek, a copy (copy_to or copy_from, n among 0, 1..8, reader W-1/W/W+1, writer W-1/W/W+1, 63/64/65, 2W-1/2W/2W+1, 2*writerW+1, 129, random <=300), then 1-14 continuation ops: reads, peeks, unary, table reads, writes, flushes, further copies; final flush). distinct_nontrivial = distinct (endianness, reader, writer word, direction, measured source buffer fill, free bits in the destination buffer, n) copy signatures plus reader-op signatures after 0/1/2+ copies Scale scenarios: one run in 200-400 has several hundred operations or a zero run / unary part / copy / skip / slice above 2^16 bits; one run in 100 000 (sim/src/giant.rs) has a copy (copy_to or copy_from) of more than 2^32 bits from a sparse zero-run source to a sparse recording sink."
+        "one case = (endianness, source reader {buffered u8..u64, unbuffered} over a strict or zero-extended memory image of one of 5 patterns, destination writer word u8..u128 over a recording sink, history: 0-4 source ops incl. peeks and gamma-table reads, 0-3 destination writes, usually a peek, a copy (copy_to or copy_from, n among 0, 1..8, reader W-1/W/W+1, writer W-1/W/W+1, 63/64/65, 2W-1/2W/2W+1, 2*writerW+1, 129, random <=300), then 1-14 continuation ops: reads, peeks, unary, table reads, writes, flushes, further copies; final flush). distinct_nontrivial = distinct (endianness, reader, writer word, direction, measured source buffer fill, free bits in the destination buffer, n) copy signatures plus reader-op signatures after 0/1/2+ copies Scale scenarios: one run in 200-400 has several hundred operations or a zero run / unary part / copy / skip / slice above 2^16 bits; one run in 100 000 (sim/src/giant.rs) has a copy (copy_to or copy_from) of more than 2^32 bits from a sparse zero-run source to a sparse recording sink. A quarter of the copies goes through the traits' DEFAULT copy_to / copy_from (a pass-through wrapper around the reader / the writer, standing for a user-defined stream)."
     }
 
     fn components() -> (Vec<&'static str>, Vec<&'static str>) {
@@ -443,6 +467,7 @@ impl Family for C08 {
 
     fn required_probes(_t: Tier) -> Vec<&'static str> {
         vec![
+            "c08.trait_default_copy",
             "scale.giant_copy",
             "c08.copy_with_more_than_a_word_buffered",
             "c08.copy_with_more_than_64_bits_buffered",
